@@ -1127,6 +1127,11 @@ pub fn after_client_frame(sim: &mut Sim, c: usize) {
                 } else if sess.upd_delivered < sent.upd_before {
                     v.push(("C04", "event_before_replication", format!("client {c} saw {:?} seq {} flushed at tick {} after {} update messages, but only {} of them were delivered (update tick {u})", o.kind, o.seq, sent.flush_tick, sent.upd_before, sess.upd_delivered)));
                 }
+            } else {
+                // Never put on the wire for this session: the tick it waits for belongs to another session's
+                // replication stream (a leftover of an earlier connection), so nothing ties its delivery to
+                // what this session has applied.
+                v.push(("C04", "event_without_replication_context", format!("client {c} session {sid} was handed {:?} seq {} although no message of this session carried it: its tick refers to replication this session never received", o.kind, o.seq)));
             }
             // Reference resolves to the client's own entity.
             if let Some(target) = rec.target {
